@@ -850,35 +850,54 @@ def run_bufgrow(prop="C04", tier="quick"):
             t = b.get("term")
             if t and t.get("cond") and len(b["succs"]) == 2:
                 c = strip(sa.strip_expect(sa.effective_cond(t)))
-                if isinstance(c, dict) and c.get("k") == "binop" and c["op"] in (">=", "<", ">", "<="):
-                    l, r = var(c["l"]), var(c["r"])
+                while isinstance(c, dict) and c.get("k") == "unop" and c["op"] == "!":
+                    c = strip(sa.strip_expect(c["e"]))
+                if isinstance(c, dict) and c.get("k") == "binop" and c["op"] in (">=", "<", ">", "<=", "==", "!="):
+                    ids = []
+                    sa.walk(c, lambda m: ids.append(m["id"]) if m.get("k") == "var" and "*" not in m.get("ct", "") and m["id"] not in ids else None)
                     for p, As in bufs.items():
                         for A in As:
-                            if l is not None and r == A and l != A:
-                                triples.add((p, l, A))
-                            if r is not None and l == A and r != A:
-                                triples.add((p, r, A))
+                            if A in ids and len(ids) == 2:
+                                other = [x for x in ids if x != A][0]
+                                # a growth test: on the edge where the buffer is full the size variable is reassigned
+                                import r_contract
+                                for si, s_ in enumerate(b["succs"]):
+                                    fs = r_contract.constraints(sa.effective_cond(t), si == 0)
+                                    fs = [f_ for f_ in (fs or []) if f_[0] != "ne"]
+                                    full = r_contract.tadd(r_contract.T(0, [(("v", other), 1)]), r_contract.T(0, [(("v", A), 1)]), -1)
+                                    if not (isinstance(s_, int) and fs and r_contract.implies(fs, full)):
+                                        continue
+                                    cur, hops, grows = s_, 0, False
+                                    while isinstance(cur, int) and hops < 4 and not grows:
+                                        for el2 in blocks[cur]["elems"]:
+                                            def asg(m):
+                                                nonlocal grows
+                                                if m.get("k") == "binop" and m["op"].endswith("=") and m["op"] not in ("==", "!=", "<=", ">=") and var(m["l"]) == A:
+                                                    grows = True
+                                                if m.get("k") == "decl":
+                                                    pass
+                                            sa.walk(el2["e"], asg)
+                                        nx = [x for x in blocks[cur]["succs"] if isinstance(x, int)]
+                                        cur = nx[0] if len(nx) == 1 else None
+                                        hops += 1
+                                    if grows:
+                                        triples.add((p, other, A))
         for (p, i, A) in sorted(triples):
             def room_edge(cond, truth):
-                """True: i < A holds on this edge; 'grow': the growing edge; None: nothing"""
-                c = sa.strip_expect(cond)
-                neg = False
-                while isinstance(c, dict) and c.get("k") == "unop" and c["op"] == "!":
-                    c = sa.strip_expect(c["e"])
-                    neg = not neg
-                c = strip(c)
-                if not (isinstance(c, dict) and c.get("k") == "binop" and c["op"] in (">=", "<", ">", "<=")):
+                """True: i < A holds on this edge; 'grow': the edge on which the buffer is full (i >= A, or i == A); None: nothing.
+                Any comparison that is linear in i and A is understood (i >= A, A <= i, i + 1 > A, i == A, ...)."""
+                import r_contract
+                facts = r_contract.constraints(cond, truth)
+                if not facts:
                     return None
-                l, r, op = var(c["l"]), var(c["r"]), c["op"]
-                if l == A and r == i:
-                    l, r, op = r, l, {">=": "<=", "<=": ">=", "<": ">", ">": "<"}[op]
-                if not (l == i and r == A):
-                    return None
-                t = truth != neg
-                if op == "<":
-                    return True if t else "grow"
-                if op == ">=":
-                    return "grow" if t else True
+                facts = [f_ for f_ in facts if f_[0] != "ne"]
+                sym_i, sym_a = ("v", i), ("v", A)
+                room = r_contract.tadd(r_contract.tadd(r_contract.T(-1), r_contract.T(0, [(sym_a, 1)])), r_contract.T(0, [(sym_i, 1)]), -1)   # A - i - 1 >= 0
+                full = r_contract.tadd(r_contract.T(0, [(sym_i, 1)]), r_contract.T(0, [(sym_a, 1)]), -1)                                      # i - A >= 0
+                if r_contract.implies(facts, room):
+                    return True
+                if r_contract.implies(facts, full):
+                    return "grow"
                 return None
             IN = {fn["entry"]: (False, False)}           # (room, growing)
             work = {fn["entry"]}
